@@ -261,7 +261,55 @@ def run_id_range_edge(tier, v):
                "two files}: --check total == tokens inserted == count printed by the edit run (when the range suffices)", n, exhaustive=True)
 
 
+def run_large_files(tier, v):
+    """Large files are read like small ones: every statement of a 256 KiB / 1 MiB / 4 MiB (thorough: 16 MiB) file is reported by --check and
+    referenced by the edit run - nothing is silently dropped because a file is big."""
+    import shutil
+    from vcommon import scratch_dir
+    work = scratch_dir("c05big")
+    sizes = [2 ** 18, 2 ** 20, 2 ** 22] + ([2 ** 24] if tier == "thorough" else [])
+    n = 0
+    for size in sizes:
+        for structured in (False, True):
+            line = 'fn f%06d() { info!("statement %d {}", %d); warn!(a = %d; "w"); }\n'
+            nlines = size // 70
+            text = "".join(line % (i, i, i, i) for i in range(nlines))
+            want = 2 * nlines
+            res = {}
+            for mode in ("check", "edit"):
+                proj = os.path.join(work, "b%d_%s" % (n, mode))
+                cli.write_tree(proj, {"src/big.rs": text, "src/small.rs": ('fn s() { info!(ref = 1; "has one"); }\n' if structured else 'fn s() { info!("[ref: 1] has one"); }\n'),
+                                      "Breadlog.yaml": cli.config_yaml("./src", structured=structured, use_cache=False)})
+                r = cli.run_breadlog(os.path.join(proj, "Breadlog.yaml"), check=(mode == "check"), cwd=work, tmpdir=work, timeout=1800)
+                after = open(os.path.join(proj, "src", "big.rs"), "rb").read()
+                res[mode] = (r, after)
+                shutil.rmtree(proj, ignore_errors=True)
+            n += 1
+            v.count()
+            v.distinct(("large-file", size, structured))
+            rc, _ = res["check"]
+            re_, after = res["edit"]
+            import re as _re
+            m = _re.search(rb"Total missing references \(all files\): ([0-9]+)", rc.stdout)
+            total = int(m.group(1)) if m else None
+            inserted = len(_re.findall(rb"\[ref: [0-9]+\] statement|\[ref: [0-9]+\] w\"|ref = [0-9]+(?:u32)?[;,] ", after))
+            m2 = _re.search(rb"Num\. inserted reference\(s\): ([0-9]+)", re_.stdout)
+            printed = int(m2.group(1)) if m2 else None
+            info = {"bytes": len(text), "statements": want, "structured": structured, "check_exit": rc.exit, "check_total": total, "edit_exit": re_.exit,
+                    "tokens_inserted": inserted, "printed_count": printed}
+            if rc.panicked or re_.panicked or rc.signal is not None or re_.signal is not None or rc.timed_out or re_.timed_out:
+                v.violation("cli-crash:large-file", info)
+            elif total != want or rc.exit == 0:
+                v.violation("large-file:statements-not-reported-by-check", info)
+            elif re_.exit == 0 and (inserted != want or (printed is not None and printed != want)):
+                v.violation("large-file:statements-not-referenced-by-edit", info)
+            elif re_.exit != 0:
+                v.violation("large-file:edit-run-failed", info)
+    v.subspace("large files: %r bytes of two-statement lines x style: --check total == statements == tokens inserted == printed count" % sizes, n, exhaustive=True)
+
+
 def run(tier, v):
+    run_large_files(tier, v)
     run_walk_faults(tier, v)
     run_id_range_edge(tier, v)
     run_timestamps(tier, v)
